@@ -442,7 +442,14 @@ pub fn text_locate(text: &str, leaf: &Leaf) -> Option<((usize, usize), (usize, u
             }
             let body_off = lstart + leaf.s.len();
             let body = &line[leaf.s.len()..];
-            let seps: &[char] = if leaf.s == "a=rtpmap:" { &[' ', '/'] } else { &[' '] };
+            let custom: Vec<char> = leaf.of.chars().collect();
+            let seps: &[char] = if !custom.is_empty() {
+                &custom
+            } else if leaf.s == "a=rtpmap:" {
+                &[' ', '/']
+            } else {
+                &[' ']
+            };
             let mut idx = 0usize;
             let mut tstart = 0usize;
             let bytes: Vec<(usize, char)> = body.char_indices().collect();
